@@ -211,6 +211,8 @@ def defect_class(case):
 
 def c03_verdict(case, obs):
     """C03 on one observation: None or (kind, text)"""
+    if obs.startswith("<not run"):
+        return None             # the harness gave up after many hangs: no observation of this case
     if obs.startswith("<hang"):
         return ("hang", "the taskpool never completed: some inserted task never ran (%s)" % obs)
     if obs.startswith("<"):
@@ -254,8 +256,8 @@ class DTDCheck(Check):
     harness_src = "harness/h_dtd.c"
     link_parsec = True
     per_check_bin = True
-    case_timeout_ms = 30000
-    defect_timeout_ms = 6000
+    case_timeout_ms = 60000
+    defect_timeout_ms = 10000
     styles = ("mixed", "mixed", "readers", "readers", "chain", "groups", "wide")
 
     def impl_timeout(self):
@@ -306,6 +308,11 @@ class DTDCheck(Check):
             nt = r.pick([r.range(1, 8), r.range(5, 30), r.range(20, maxtasks)])
             tasks = g.sequence(ndata, nt, r.pick(self.styles), repeats=False)
             spin = r.pick([0, r.range(1, 1000), r.range(1, 1000)])
+            # tasks inserting tasks: the last top-level task inserts the k tasks that follow it (one
+            # producer at a time: the main thread is waiting by then, so the insertion order is the
+            # order of the case).  Only without window: a body blocked by the window waits for tasks
+            # that may depend on its own completion.
+            nk = r.range(1, min(8, nt - 1)) if nt >= 2 and r.chance(1, 6) else 0
             # the same sequence under a few configurations
             for cfg in r.shuffle(cfgs)[:r.range(2, 3)]:
                 th, sc, w, h = cfg
@@ -314,7 +321,10 @@ class DTDCheck(Check):
                     flags |= 2          # hold: whole DAG unrolled before anything runs
                 if r.chance(1, 10):
                     flags |= 1          # no flush before the wait
-                out.append(case_txt(ndata, th, sc, w, h, spin, flags, tasks))
+                tl = tasks
+                if nk and w == 0:
+                    tl = tasks[:nt - nk] + [(True, a) for (_, a) in tasks[nt - nk:]]
+                out.append(case_txt(ndata, th, sc, w, h, spin, flags, tl))
         return out
 
     def cases(self):
@@ -346,8 +356,16 @@ class DTDCheck(Check):
             model = model + emodel
         return fails, oracle_fail, cases, impl, model
 
+    def verdict(self, case, obs):
+        """(kind, text) or None: the property of this check on one observation"""
+        return None
+
+    def oracle(self, case, obs):
+        v = self.verdict(case, obs)
+        return v[1] if v else None
+
     def signature(self, case, obs):
-        v = c03_verdict(case, obs) or c04_verdict(case, obs)
+        v = self.verdict(case, obs)
         kind = v[0] if v else "none"
         return "%s-%s" % (defect_class(case) or "main", kind)
 
@@ -365,7 +383,8 @@ class DTDCheck(Check):
 
     def dist(self, cases):
         d = {"cases": len(cases), "tasks_hist": {}, "threads": {}, "sched": {}, "window": {}, "hold": 0,
-             "noflush": 0, "max_tasks": 0, "sequences": len(set(c.partition("|")[2] for c in cases))}
+             "noflush": 0, "max_tasks": 0, "nested_cases": 0,
+             "sequences": len(set(c.partition("|")[2].replace(">", "") for c in cases))}
         for c in cases:
             hdr, tasks = parse_case(c)
             b = "1-8" if len(tasks) <= 8 else "9-30" if len(tasks) <= 30 else "31-60" if len(tasks) <= 60 else "61+"
@@ -375,6 +394,7 @@ class DTDCheck(Check):
                 d[k][str(hdr[f])] = d[k].get(str(hdr[f]), 0) + 1
             d["hold"] += (hdr["flags"] >> 1) & 1
             d["noflush"] += hdr["flags"] & 1
+            d["nested_cases"] += any(n for n, _ in tasks)
         return d
 
     def search_cases(self):
